@@ -161,6 +161,8 @@ def coerce(v, ty):
     return v.t
   if ty.k == 'any' and v.ty.k == 'int':
     return v.t
+  if ty.k == 'any' and v.ty.k == 'bool':
+    return z3.If(v.t, z3.IntVal(1), z3.IntVal(0))   # False and None are both falsy ids
   raise Unsupported('cannot coerce %r to %r' % (v, ty))
 
 
